@@ -6,7 +6,7 @@ package moss
 func init() { vxRegister("vxH_C15_handles", vxH_C15_handles) }
 
 type vxHandleRec struct {
-	kind   int // 0 collection snapshot, 1 store snapshot, 2 iterator on a collection snapshot
+	kind   int // 0 collection snapshot, 1 store snapshot, 2 iterator on a collection snapshot, 3 iterator on a store snapshot
 	snap   Snapshot
 	it     Iterator
 	nlay   int // number of reference layers visible when it was opened
@@ -44,7 +44,7 @@ func vxH_C15_handles() {
 		if len(hs) >= maxHandles || vxChoose(2) == 0 {
 			return
 		}
-		h := &vxHandleRec{kind: vxChoose(3), nlay: len(layers)}
+		h := &vxHandleRec{kind: vxChoose(4), nlay: len(layers)}
 		switch h.kind {
 		case 0:
 			h.snap, err = coll.Snapshot()
@@ -52,10 +52,20 @@ func vxH_C15_handles() {
 			h.snap, err = store.Snapshot()
 			// the store only knows what has been persisted; all rounds so
 			// far were drained, so that is everything
-		case 2:
-			h.snap, err = coll.Snapshot()
+		case 2, 3:
+			if h.kind == 2 {
+				h.snap, err = coll.Snapshot()
+			} else {
+				h.snap, err = store.Snapshot()
+			}
 			if err == nil {
-				h.it, err = h.snap.StartIterator(kb, nil, IteratorOptions{})
+				h.it, err = h.snap.StartIterator(nil, nil, IteratorOptions{})
+			}
+			if err == nil && h.it != nil {
+				// a backward seek restarts the iterator internally; it
+				// must stay positioned on "k" and keep its references
+				h.it.SeekTo([]byte{})
+				h.it.SeekTo(kb)
 			}
 		}
 		vxAssert("handle-open-ok", err == nil)
@@ -67,7 +77,11 @@ func vxH_C15_handles() {
 				continue
 			}
 			ref := vxRefGet(K, layers[:h.nlay]...)
-			if h.kind == 2 {
+			if h.kind >= 2 {
+				if h.it == nil {
+					vxAssert(tag+"-iterator-frozen", vxNot(ref.live))
+					continue
+				}
 				ik, iv, ierr := h.it.Current()
 				if ierr == ErrIteratorDone {
 					vxAssert(tag+"-iterator-frozen", vxNot(ref.live))
